@@ -59,6 +59,7 @@ Proof.
     destruct (func_info P f) as [fi|]; [|discriminate].
     destruct (fi_native fi).
     + destruct (find_native (p_natives P) f) as [nt|]; [|discriminate].
+      apply andb_true_iff in Hw. destruct Hw as [Hfn Hw]. rewrite Hfn. cbn [negb].
       apply negb_true_iff in Hw. rewrite Hw. exact I.
     + apply negb_true_iff in Hw. rewrite Hw. exact I.
   - unfold arg_ok in Hw. destruct (func_info P f) as [fi|]; [|discriminate].
